@@ -1,7 +1,7 @@
 (* Entry points extracted for the correspondence check of C13 (unique c13_ prefix).  The opcode tables inside
    the model are the generated ones (Gen/Opcodes.v = what the code defines now). *)
 Require Import Bits.Lib.Result Bits.Lib.Bytes Bits.Lib.PyStr Bits.Spec.Script Bits.Model.Script.
-Require Bits.Model.Witness.
+Require Bits.Model.Witness Bits.Model.ScriptWitnessParse.
 Definition c13_script := script.
 Definition c13_decode_script := decode_script.
 Definition c13_p2pkh_script_pubkey := p2pkh_script_pubkey.
@@ -28,3 +28,5 @@ Definition c13_witness_ser := Bits.Model.Witness.witness_ser.
 Definition c13_witness_deser := Bits.Model.Witness.witness_deser.
 (* the Spec recogniser of canonical scripts, compared with the harness' independent Python reference *)
 Definition c13_canonical := canonical.
+(* decode_script(witness=True, parse=True) *)
+Definition c13_witness_parse := Bits.Model.ScriptWitnessParse.witness_parse.
